@@ -807,7 +807,7 @@ func (d decoder) unmarshalTimestamp(m protoreflect.Message) error {
 
 	s := tok.ParsedString()
 	t, err := time.Parse(time.RFC3339Nano, s)
-	if err != nil {
+	if err != nil || !isStrictRFC3339(s) {
 		return d.newError(tok.Pos(), "invalid %v value %v", genid.Timestamp_message_fullname, tok.RawString())
 	}
 	// Validate seconds.
@@ -829,6 +829,29 @@ func (d decoder) unmarshalTimestamp(m protoreflect.Message) error {
 	m.Set(fdSeconds, protoreflect.ValueOfInt64(secs))
 	m.Set(fdNanos, protoreflect.ValueOfInt32(int32(t.Nanosecond())))
 	return nil
+}
+
+// isStrictRFC3339 reports whether s, which time.Parse accepted for the layout
+// time.RFC3339Nano, is also valid according to RFC 3339. time.Parse is more
+// lenient: it accepts a one-digit hour, a comma as the separator of fractional
+// seconds, and time zone offsets with hour 24 or minute 60 and beyond.
+// (These are the same checks that time.Time.UnmarshalText applies.)
+func isStrictRFC3339(s string) bool {
+	num2 := func(s string) int { return 10*int(s[0]-'0') + int(s[1]-'0') }
+	switch {
+	case s[len("2006-01-02T")+1] == ':': // hour must be two digits
+		return false
+	case s[len("2006-01-02T15:04:05")] == ',': // sub-second separator must be a period
+		return false
+	case s[len(s)-1] != 'Z':
+		if num2(s[len(s)-len("07:00"):]) >= 24 { // time zone hour must be in range
+			return false
+		}
+		if num2(s[len(s)-len("00"):]) >= 60 { // time zone minute must be in range
+			return false
+		}
+	}
+	return true
 }
 
 // The JSON representation for a FieldMask is a JSON string where paths are
